@@ -33,24 +33,24 @@ def P(level, qc, qn, qs, tc, tn, ts, shards=16, **kw):
 
 
 PLANS = {
-    "C01": P("exploration", SEM, 16000, 800, SEM + ["mid", "host-nosse", "small-omp"], 120000, 1500),
-    "C02": P("exploration", SEM, 24000, 700, SEM + ["mid", "host"], 200000, 1300),
-    "C03": P("exploration", SEM, 15000, 700, SEM + ["mid", "host"], 120000, 1300),
-    "C04": P("exploration", SEM, 30000, 700, SEM + ["mid", "host"], 240000, 1400),
-    "C05": P("exploration", SEM, 20000, 600, SEM + ["mid", "host"], 160000, 1100),
-    "C06": P("exploration", SEM, 20000, 600, SEM + ["mid", "host"], 160000, 1200),
-    "C07": P("exploration", SEM, 36000, 600, SEM + ["mid", "host"], 280000, 1200),
-    "C08": P("exploration", SEM, 60000, 900, SEM + ["host", "host-nosse"], 480000, 1700),
-    "C09": P("exploration", SEM, 32000, 500, SEM + ["mid", "host"], 250000, 900),
-    "C10": P("exploration", WRAP, 2500, 400, WRAP, 15000, 800),
-    "C11": P("exploration", STRICT4, 10000, 400, STRICT4, 80000, 800, strict=True, san_to_stderr=True),
-    "C13": P("exploration", ["small", "small-nosse", "mid"], 48000, 500, ["small", "small-nosse", "mid", "host"], 380000, 1200, shards=15),
-    "C14": P("exploration", WRAP, 1500, 100, WRAP + ["small-ts-wrap-strict"], 15000, 100),
-    "C17": P("exploration", SEM, 60000, 400, SEM + ["host"], 480000, 1000),
-    "C18": P("exploration", ["small-strict", "small-nosse-strict"], 2000, 300, ["small-strict", "small-nosse-strict"], 36000, 600,
+    "C01": P("exploration", SEM, 16000, 800, SEM + ["mid", "host-nosse"], 48000, 1500),
+    "C02": P("exploration", SEM, 24000, 700, SEM + ["mid", "host"], 72000, 1300),
+    "C03": P("exploration", SEM, 15000, 700, SEM + ["mid", "host"], 45000, 1300),
+    "C04": P("exploration", SEM, 30000, 700, SEM + ["mid", "host"], 90000, 1400),
+    "C05": P("exploration", SEM, 20000, 600, SEM + ["mid", "host"], 60000, 1100),
+    "C06": P("exploration", SEM, 20000, 600, SEM + ["mid", "host"], 60000, 1200),
+    "C07": P("exploration", SEM, 36000, 600, SEM + ["mid", "host"], 100000, 1200),
+    "C08": P("exploration", SEM, 60000, 900, SEM + ["host", "host-nosse"], 180000, 1700),
+    "C09": P("exploration", SEM, 32000, 500, SEM + ["mid", "host"], 100000, 900),
+    "C10": P("exploration", WRAP, 2500, 400, WRAP, 8000, 800),
+    "C11": P("exploration", STRICT4, 10000, 400, STRICT30000, 80000, 800, strict=True, san_to_stderr=True),
+    "C13": P("exploration", ["small", "small-nosse", "mid"], 48000, 500, ["small", "small-nosse", "mid", "host"], 150000, 1200, shards=15),
+    "C14": P("exploration", WRAP, 1500, 100, WRAP + ["small-ts-wrap-strict"], 5000, 100),
+    "C17": P("exploration", SEM, 60000, 400, SEM + ["host"], 200000, 1000),
+    "C18": P("exploration", ["small-strict", "small-nosse-strict"], 2000, 300, ["small-strict", "small-nosse-strict"], 8000, 600,
              strict=True, san_to_stderr=True),
-    "C19": P("exploration", SEM, 30000, 300, SEM + ["host", "host-nosse"], 240000, 600),
-    "C20": P("fault_enumeration", FAULT3, 30, 100, FAULT3, 150, 100, shards=15, strict=True, san_to_stderr=True),
+    "C19": P("exploration", SEM, 30000, 300, SEM + ["host", "host-nosse"], 100000, 600),
+    "C20": P("fault_enumeration", FAULT3, 30, 100, FAULT100, 150, 100, shards=15, strict=True, san_to_stderr=True),
 }
 
 
